@@ -322,6 +322,9 @@ def subject_cross(case):
     try:
         out['ab'] = bool(a.is_overlap(b))
         out['ba'] = bool(b.is_overlap(a))
+        # a wildcard of one schema document as a restriction of a wildcard of another target namespace (xs:import)
+        out['ra'] = bool(a.is_restriction(b))
+        out['rb'] = bool(b.is_restriction(a))
     except Exception as e:  # noqa
         out['exc'] = common.exc_class(e)
     return out
@@ -350,6 +353,11 @@ def check_cross(ctx, cases):
                 problems.append(('primary', '%s=%s but the sets %s on the universe' % (name, v, 'intersect' if inter else 'are disjoint')))
         if (o['ab'], o['ba']) != tuple(m):
             problems.append(('aux', 'model/implementation differ on overlap: impl=%s model=%s' % ((o['ab'], o['ba']), m)))
+        sa, sb = form_set_tns(fa, TNS), form_set_tns(fb, ANS)
+        for name, v, d, bse in (('a.is_restriction(b)', o.get('ra'), sa, sb), ('b.is_restriction(a)', o.get('rb'), sb, sa)):
+            if v and not all(y for x, y in zip(d, bse) if x):
+                extra = [u for u, x, y in zip(UNIVERSE, d, bse) if x and not y]
+                problems.append(('primary', '%s is accepted but the derived wildcard admits %s, which the base wildcard excludes' % (name, extra)))
         if problems:
             prim = [p for p in problems if p[0] == 'primary']
             ctx.violation('element wildcards %s (target namespace %s) and %s (target namespace %s), XSD %s: %s'
